@@ -392,6 +392,8 @@ def lib_dup():
             "d2": {"name": "test:dup", "version": "1.1.0", "imports": [], "exports": [("x", fA), ("y", fA)]},
             # (different bytes from d1: embedded components are recognised by their content)
             "d3": {"name": "test:dup", "version": "2.0.0", "imports": [], "exports": [("x", fB)]},
+            # versions that differ from a release in the pre-release part only (different bytes again)
+            "d4": {"name": "test:dup", "version": "2.0.0-rc.1", "imports": [], "exports": [("x", fB), ("z", fB)]},
             "dc": {"name": "test:user", "version": None, "imports": [("a", fA), ("b", fA), ("r", fD)], "exports": [("o", fA)]},
         },
         "kinds": {"fA": fA},
@@ -431,6 +433,9 @@ def lib_ver2():
             "q2": {"name": "test:q2", "version": None, "imports": [("ns:p/i@0.2.1", inst(y=fA))], "exports": [("o", fA)]},
             "q3": {"name": "test:q3", "version": None, "imports": [("ns:p/i@0.2.0", inst(z=fB))], "exports": [("o", fA)]},
             "q4": {"name": "test:q4", "version": None, "imports": [("ns:p/i@0.2.1+b2", inst(w=fA))], "exports": [("o", fA)]},
+            # versions whose numeric order is not their textual order
+            "q5": {"name": "test:q5", "version": None, "imports": [("ns:p/j@0.2.9", inst(x=fA))], "exports": [("o", fA)]},
+            "q6": {"name": "test:q6", "version": None, "imports": [("ns:p/j@0.2.10", inst(y=fA))], "exports": [("o", fA)]},
         },
         "kinds": {"fA": fA},
         "import_names": ["k"],
